@@ -354,7 +354,7 @@ P("C18", "proof", "Lean 4 theorems: byte-level fault-capable transcriptions (che
   "input length) never yields a panic or a divergence and returns exactly what the token-level parser returns "
   "(unix_parser_total, windows_parser_total, *_comb_interleave). Outside the parsers: Encoding::hash of both encodings with "
   "checked indexing never goes out of range and equals the model's loop (hash_index_in_range); `normal_cnt -= 1` never "
-  "underflows (checked_count_no_underflow); set_extension's `end_file_stem - start` is inside the buffer and on a "
+  "underflows (checked_count_no_underflow) and never exceeds the argument's length + 1, so a counter as wide as the length type cannot overflow while a narrower one can (C18b.checked_count_bounded, checkedScanW_eq, checked_count_fits_usize, narrow_counter_faults: 128 clean names overflow a counter that ends at 127); set_extension's `end_file_stem - start` is inside the buffer and on a "
   "character boundary (set_ext_cut_in_range). gen/partial.py regenerates on every run the table of indexing / unwrap / "
   "subtraction / truncate / loop / panic-macro / unsafe sites per source file, and partial_sites_covered proves it is "
   "the table those theorems were written against (a new site breaks it). The transcription is tied to the crate by the "
@@ -364,9 +364,10 @@ P("C18", "proof", "Lean 4 theorems: byte-level fault-capable transcriptions (che
   "`unsafe` blocks (repr(transparent) casts, from_utf8_unchecked) are counted in the site table but modelled, not verified "
   "(C14 proves the UTF-8 invariant they rely on; C19 exercises the casts). The `.expect` under cfg!(windows) is unreachable "
   "on this host. gen/partial.py (regex counting after stripping comments, literals, attributes and test modules) is trusted. " + TV_NOTE,
-  theorems=["TP.C18.unix_parser_total", "TP.C18.windows_parser_total", "TP.C18.unix_comb_interleave", "TP.C18.windows_comb_interleave",
+  theorems=["TP.C18b.checked_count_bounded", "TP.C18b.checkedScanW_eq", "TP.C18b.checked_count_fits_usize", "TP.C18b.narrow_counter_faults", "TP.C18b.comps_length_le", "TP.C18.unix_parser_total", "TP.C18.windows_parser_total", "TP.C18.unix_comb_interleave", "TP.C18.windows_comb_interleave",
             "TP.C18.runC_sim", "TP.C18.hash_index_in_range", "TP.C18.checked_count_no_underflow", "TP.C18.set_ext_cut_in_range",
             "TP.C18.partial_sites_covered"],
+  modules=["TypedPathVerif.Props.C18b"],
   rule="14+ long-input shapes (16-64 KiB) x 6 arguments x ~45 operations, plus every short input; distinct by (shape, argument)",
   explanation="Totality of the parsers, hash loops, checked-push counter and set_extension cut are Lean theorems about byte-level "
               "transcriptions with checked indices and fuelled loops, tied to the code by correspondence and by the regenerated "
